@@ -96,7 +96,8 @@ class Finders:
                                    gfa_line.oriented_to, gfa_line.alignment)
       if previous is not None:
         return previous
-    if gfa_line.record_type in self.RECORDS_WITH_NAME:
+    if gfa_line.record_type in self.RECORDS_WITH_NAME and \
+        gfa_line.__class__.NAME_FIELD is not None:
       return self.line(gfa_line.name)
     else:
       return None
